@@ -4,7 +4,7 @@
 # (so concurrent work in /verif and /repo is not disturbed).  Prints the tail of the check output and its exit code.
 set -u
 PID=$1; PATCH=$(realpath "$2"); TIER=${3:-quick}
-WT=/tmp/seedwt-$PID-$$; VC=/tmp/verifcopy-$PID
+WT=/tmp/seedwt-$PID-$$; VC=/tmp/verifcopy-$PID-$$
 git -C /repo worktree add --detach "$WT" HEAD >/dev/null 2>&1 || { echo "worktree failed"; exit 3; }
 if ! git -C "$WT" apply "$PATCH"; then echo "PATCH DOES NOT APPLY"; git -C /repo worktree remove --force "$WT"; exit 4; fi
 mkdir -p "$VC"
@@ -15,4 +15,6 @@ RC=$?
 grep -E "VIOLATION|KNOWN-FINDING|Traceback|Error" "$VC/seed.out" | head -12
 echo "exit=$RC"
 git -C /repo worktree remove --force "$WT"
+cp "$VC/seed.out" /verif/build/seedtest-last-$PID.out 2>/dev/null
+rm -rf "$VC"
 exit $RC
